@@ -290,8 +290,8 @@ inline void on_access(uintptr_t a, size_t n, bool is_write, uintptr_t pc) {
 }
 
 // ---------------- blocks allocated by the library ----------------
-inline void register_block(uintptr_t lo, size_t len, char kind) {
-    if (!RT.active || !len) return;
+inline void register_block(uintptr_t lo, size_t len, char kind, bool force = false) {
+    if ((!RT.active && !force) || !len) return;
     Block b; b.lo = lo; b.hi = lo + len; b.ordinal = RT.next_block++; b.kind = kind;
     b.cells.assign(((b.hi + 7) / 8) - (lo / 8), Cell());
     for (auto &c : b.cells) memset(&c, 0, sizeof c);
